@@ -7,6 +7,13 @@
 (*   formatted : already formatted (result = content)        shrinks : result shorter than the content          *)
 (*   grows     : result longer                               samelen : result differs, same length             *)
 (*   empty     : empty file (result is one line terminator)  undecodable / missing / dangling : failures       *)
+(*                                                                                                              *)
+(* Refinement at materialisation (lib/cli.py, run_modes_scenario). The model is insensitive to, and every final  *)
+(* state is therefore replayed under several values of: the file names (also two names that differ in letter     *)
+(* case only, explicit paths with other extensions, spaces and non-ASCII letters), the sizes (a first file of    *)
+(* 300 KiB or 1.3 MiB followed by the others on one worker thread), the stored encoding (UTF-8 or UTF-16LE       *)
+(* behind a BOM), the form of an undecodable file (invalid UTF-8, UTF-16 with a dangling byte, a lone            *)
+(* surrogate) and --log-level. The number of failing paths is the subject of CliExit.tla.                        *)
 EXTENDS Naturals, Sequences, FiniteSets, TLC, Json
 
 CONSTANTS Files,        \* set of file identifiers
